@@ -36,8 +36,8 @@ def configs():
     out = []
     for t in TRANSPORTS:
         for md in MODELS:
-            if t == "socket" and md != "thread":
-                continue
+            if t == "socket" and md == "main_thread_only":
+                continue  # a main_thread_only master is occupied by the server loop (documented)
             out.append((t, md))
     return out
 
@@ -58,10 +58,13 @@ def make_gateway(group, transport, model):
         return group.makegateway(f"popen//execmodel={model}")
     if transport == "python":
         return group.makegateway(f"popen//python={sys.executable}//execmodel={model}")
+    if transport == "socket":
+        # the socket gateway lives in its server's process and takes that process' exec model
+        if "smaster" not in group:
+            group.makegateway(f"popen//id=smaster//execmodel={model}")
+        return group.makegateway("socket//installvia=smaster")
     if "master" not in group:
         group.makegateway("popen//id=master")
-    if transport == "socket":
-        return group.makegateway("socket//installvia=master")
     return group.makegateway(f"popen//via=master//execmodel={model}")
 
 
@@ -72,6 +75,15 @@ for i in range(n):
     x = channel.receive()
     channel.send((len(x), hashlib.sha1(x).hexdigest()))
     channel.send(x[::-1])
+# pipelined phase: many frames back to back in both directions (big ones followed by small ones)
+burst = channel.receive()
+for size in burst:
+    channel.send(bytes([size % 251]) * size)
+seen = []
+for size in burst:
+    y = channel.receive()
+    seen.append((len(y), hashlib.sha1(y).hexdigest()))
+channel.send(seen)
 sub = channel.gateway.newchannel()
 channel.send(sub)
 got = []
@@ -106,6 +118,14 @@ def run_bulk(gw, rng, maxsize):
         back = ch.receive(60)
         nbytes += 2 * len(x)
         tr.append((ln, dg, hashlib.sha1(back).hexdigest(), len(back)))
+    burst = [rng.choice((0, 1, 7, 100, 5000)) if i % 3 else rng.choice((200000, 700000, maxsize)) for i in range(rng.choice((6, 12)))]
+    ch.send(burst)
+    got_burst = [ch.receive(60) for _ in burst]
+    tr.append(("burst-in", [(len(y), hashlib.sha1(y).hexdigest()) for y in got_burst]))
+    for size in burst:
+        ch.send(bytes([size % 199]) * size)
+    tr.append(("burst-out", [tuple(x) for x in ch.receive(60)]))
+    nbytes += 2 * sum(burst)
     sub = ch.receive(60)
     k = rng.choice((0, 3, 40))
     for i in range(k):
@@ -125,6 +145,8 @@ def run_bulk(gw, rng, maxsize):
     except BaseException as e:  # noqa
         tr.append(type(e).__name__)
     want = [(len(x), hashlib.sha1(x).hexdigest(), hashlib.sha1(x[::-1]).hexdigest(), len(x)) for x in items]
+    want.append(("burst-in", [(sz, hashlib.sha1(bytes([sz % 251]) * sz).hexdigest()) for sz in burst]))
+    want.append(("burst-out", [(sz, hashlib.sha1(bytes([sz % 199]) * sz).hexdigest()) for sz in burst]))
     want.append(("callback-log", [("cb", i) for i in range(k)] + ["<end>"]))
     want += [("RemoteError", True, True), "EOF"]
     return tr, want, nbytes
@@ -169,6 +191,34 @@ def run_programs_on(res, gw, rng_seed, n, label, big):
     return out
 
 
+class SlowSock:
+    """Perturbs the initiator's socket reads the way a real network may: large recv() calls are sometimes delayed a little
+    (more of the peer's bytes are buffered when the call is made) and sometimes return fewer bytes than asked for."""
+
+    def __init__(self, sock, rng):
+        self._sock = sock
+        self._rng = rng
+
+    def _shape(self, n):
+        if n > 4096:
+            k = self._rng.random()
+            if k < 0.3:
+                time.sleep(self._rng.choice((0.001, 0.01, 0.03)))
+            elif k < 0.7:
+                return min(n, self._rng.choice((1000, 1 << 16, n // 2 + 1)))
+        return n
+
+    def recv(self, n):
+        return self._sock.recv(self._shape(n))
+
+    def recv_into(self, buf, nbytes=0):
+        n = nbytes or len(buf)
+        return self._sock.recv_into(buf, self._shape(n))
+
+    def __getattr__(self, name):
+        return getattr(self._sock, name)
+
+
 def run_config(spec):
     import execnet
 
@@ -178,8 +228,12 @@ def run_config(spec):
     group = execnet.Group()
     try:
         gw = make_gateway(group, spec["transport"], spec["model"])
+        if spec["transport"] == "socket":
+            import random
+
+            gw._io.sock = SlowSock(gw._io.sock, random.Random(spec["seed"]))
         st = gw.remote_status()
-        if spec["transport"] != "socket" and st.execmodel != spec["model"]:
+        if st.execmodel != spec["model"]:
             res.violation(f"worker-execmodel-wrong:{label}", st.execmodel)
         seed = core.case_seed("C16", spec["tier"], spec["seed"])  # the SAME programs on every configuration
         trs = run_programs_on(res, gw, seed, spec["n"], label, big)
@@ -229,7 +283,7 @@ def run_control(spec):
 
     res = Result()
     for rep in range(spec["reps"]):
-        for action in ("kill", "exit_wait", "close_write"):
+        for action in ("kill", "exit_wait", "close_write", "terminate_hanging", "terminate_hanging_mto"):
             group = execnet.Group()
             try:
                 group.makegateway("popen//id=master")
@@ -243,6 +297,27 @@ def run_control(spec):
                 res.count("control_checks")
                 res.case(core.h64("control", action))
                 io = gw._io
+                if action.startswith("terminate_hanging"):
+                    # remote code that ignores interrupts: only the kill request sent after the timeout ends it promptly
+                    hang_group = execnet.Group()
+                    hang_group.makegateway("popen//id=master")
+                    model = "main_thread_only" if action.endswith("mto") else "thread"
+                    hgw = hang_group.makegateway(f"popen//via=master//execmodel={model}")
+                    hch = hgw.remote_exec("import ctypes, os, time\nctypes.CDLL(None).signal(2, 1)\nchannel.send(os.getpid())\nwhile True:\n    time.sleep(0.05)\n")
+                    hpid = hch.receive(20)
+                    t0 = time.monotonic()
+                    hang_group.terminate(1.0)
+                    took = time.monotonic() - t0
+                    left, dt = procs.wait_gone([hpid], 4.0)
+                    res.info.setdefault("terminate_hanging_via_s", {})[f"{action}_{rep}"] = round(took, 2)
+                    if left:
+                        res.violation("terminate-kill-did-not-reach-proxied-process", f"{action}: pid {hpid} alive {took + dt:.1f}s after terminate(1.0) began (terminate took {took:.1f}s)")
+                        try:
+                            import os as _os
+                            _os.kill(hpid, 9)
+                        except OSError:
+                            pass
+                    continue
                 if action == "kill":
                     io.kill()
                     left, dt = procs.wait_gone([pid], 5.0)
